@@ -23,7 +23,12 @@ use prost::{DecodeError, Message};
 use crate::proto::command::ListenersCount;
 
 pub const MAX_FDS_OUT: usize = 200;
-pub const MAX_BYTES_OUT: usize = 4096;
+/// Size of the buffer the address manifest is received into, with a single
+/// `recvmsg`. It must hold the manifest of any listener set up to
+/// `MAX_FDS_OUT`: one `repeated string` entry per listener (1 tag byte,
+/// 1 length byte, at most 58 bytes of `[ipv6%scope]:port` text) plus the
+/// length delimiter. 4096 bytes only held about 170 IPv4 listeners.
+pub const MAX_BYTES_OUT: usize = MAX_FDS_OUT * 64 + 16;
 
 #[derive(thiserror::Error, Debug)]
 pub enum ScmSocketError {
